@@ -7,8 +7,10 @@ record)`"; for cmap and glyf the font-level model only holds an opaque token, so
 assumption *is* the cited theorem.
 -/
 import SfntV.Props.C01
-import SfntV.Props.C12
-import SfntV.Props.C14
+import SfntV.Proofs.MetricsHead
+import SfntV.Proofs.MetricsOs2
+import SfntV.Proofs.MetricsDerived
+import SfntV.Proofs.NamesTable
 import SfntV.Props.C09b
 import SfntV.Props.C11
 
@@ -63,7 +65,7 @@ theorem C01_time_bridge (t : Time) (h : timeInRange t) :
 theorem C01_head_codec (h : HeadRec) (bbox : Metrics.Rect) (loca : Int)
     (d : Metrics.HeadDom (headOf h bbox loca)) (hc : timeInRange h.created) (hm : timeInRange h.modified) :
     ∃ H, Metrics.decodeHead (Metrics.encodeHead (headOf h bbox loca)) = .ok H ∧ recOfHead H = codecHead h := by
-  refine ⟨_, SfntV.Props.C12.C12_head_roundtrip (headOf h bbox loca) d, ?_⟩
+  refine ⟨_, Metrics.head_roundtrip (headOf h bbox loca) d, ?_⟩
   unfold recOfHead codecHead
   simp only [headOf, C01_time_bridge h.created hc, C01_time_bridge h.modified hm]
 
@@ -91,7 +93,7 @@ they stay modelled and are checked by the streams font.derive / metrics.os2enc. 
 theorem C01_os2_codec (o : Os2Rec) (x : Metrics.Os2) (d : Metrics.Os2Dom (os2Of o x)) :
     Metrics.decodeOs2 (Metrics.encodeOs2 (os2Of o x)) = .ok (os2Of o x) ∧
     recOfOs2 (os2Of o x) = codecOs2 o ∧ codecOs2 o = o := by
-  refine ⟨SfntV.Props.C12.C12_os2_roundtrip _ d, ?_⟩
+  refine ⟨Metrics.os2_roundtrip _ d, ?_⟩
   have hreg := d.reg
   have hcap := d.cap0
   have hxh := d.xh0
@@ -125,7 +127,7 @@ theorem C01_post_codec (v : Nat) (hv : v = 0x00010000 ∨ v = 0x00030000 ∨ v =
     (hp : isInt16 p.underlinePosition) (ht : isInt16 p.underlineThickness) :
     Metrics.decodePost (Metrics.encodePost v (postHdrOf p)) = .ok (v, postHdrOf p) ∧
     recOfPostHdr (postHdrOf p) = codecPost p := by
-  refine ⟨SfntV.Props.C12.C12_post_header_roundtrip v (postHdrOf p) hv ?_ hp ht, rfl⟩
+  refine ⟨Metrics.post_roundtrip v (postHdrOf p) hv ?_ hp ht, rfl⟩
   have := toInt32_range p.italicAngle.round16
   simp only [postHdrOf]
   omega
@@ -164,7 +166,7 @@ structure CodecFacts : Prop where
     ∃ b, Metrics.encodeMaxp ⟨n, ttf⟩ = .ok b ∧ Metrics.decodeMaxp b = .ok ⟨n, ttf⟩
   /-- name strings (C14): every string of the record comes back under its platform, tag and id -/
   name : ∀ (n : NameRec) (macOrder winOrder : List (Nat × String)),
-    SfntV.Props.C14.NameDomain macOrder winOrder (nameEntries n) 1 →
+    Names.NameDom Gen.appleBCP Gen.msBCP macOrder winOrder (nameEntries n) 1 →
     ∃ dec, Names.nameDecode (Names.nameEncodeWith macOrder winOrder (nameEntries n) 1) = some dec ∧
       ∀ p t i, Names.getVal dec p t i = Names.getVal (nameEntries n) p t i
   /-- cmap (C09): the payload the model keeps as the token `Outline.cmap` -/
@@ -180,8 +182,8 @@ theorem C01_codec_assumptions_discharged : CodecFacts where
   head := C01_head_codec
   os2 := fun o x d => ⟨(C01_os2_codec o x d).1, (C01_os2_codec o x d).2.1⟩
   post := C01_post_codec
-  maxp := fun n ttf h1 h2 ht => SfntV.Props.C12.C12_maxp_roundtrip ⟨n, ttf⟩ ⟨by simp only; omega, by simp only; omega⟩ ht
-  name := fun n mo wo h => SfntV.Props.C14.C14_name_roundtrip mo wo (nameEntries n) 1 h
+  maxp := fun n ttf h1 h2 ht => Metrics.maxp_roundtrip ⟨n, ttf⟩ ⟨by simp only; omega, by simp only; omega⟩ ht
+  name := fun n mo wo h => Names.name_roundtrip_with Gen.appleBCP Gen.msBCP mo wo (nameEntries n) 1 h
   cmap := fun t hv hn hsz => C09b.C09_table_roundtrip t hv hn hsz
   glyf := fun gs h => SfntV.Props.C11.C11_roundtrip gs h
 
